@@ -14,8 +14,10 @@
 //! (c) after every step of (b): `JwtCredentialValidatorUtils::check_status` on a credential pointing at each probe
 //!     index of each service reports `Revoked` iff the index is a member; once per distinct document state also the
 //!     status-entry variants (no index query, query != property, malformed index, dangling / wrong-type service,
-//!     issuer document missing), several offered issuer documents in both orders, and the direct entry point
-//!     `check_revocation_bitmap_status`.
+//!     issuer document missing), several offered issuer documents in both orders, the direct entry point
+//!     `check_revocation_bitmap_status`, and the issuer document extended by a service `other-did#<same fragment>`
+//!     holding the complement set (before / after its own services): a status entry naming either service is answered
+//!     by exactly that service; an entry naming a same-fragment service the document does not hold never passes.
 //! (d) endpoints written by OTHER implementations of the RevocationBitmap2022 specification for the same sets: the
 //!     run-container variant of the roaring portable format (cookie 12347; all-run, alternating and size-optimal
 //!     container choices, written by a harness-side writer from the format specification) must decode to the same
@@ -1073,6 +1075,25 @@ fn other_doc(kind: u8, uni: u8, model: &[BTreeSet<u32>; 2]) -> RealDoc {
   real_doc(kind, doc_json(did, &texts))
 }
 
+/// The real document `json` (its own services untouched, so `did#frag` keeps its actual endpoint text) with one more
+/// RevocationBitmap2022 service `other_did#frag` — same fragment, another DID — holding `members`, inserted before
+/// or after the document's own services. `None` if the document kind refuses such a service.
+fn with_same_fragment_service(doc: &RealDoc, json: &str, other_did: &str, frag: &str, members: &[u32], first: bool) -> Option<RealDoc> {
+  let mut v: serde_json::Value = serde_json::from_str(json).ok()?;
+  let extra = json!({"id": format!("{other_did}#{frag}"), "type": "RevocationBitmap2022", "serviceEndpoint": format!("{DATA_URL}{}", library_text(other_did, frag, members))});
+  let core = if v.get("doc").is_some() { &mut v["doc"] } else { &mut v };
+  let list = core.get_mut("service")?.as_array_mut()?;
+  if first {
+    list.insert(0, extra);
+  } else {
+    list.push(extra);
+  }
+  let text = serde_json::to_string(&v).ok()?;
+  guard(|| doc.from_json(&text)).ok().flatten()
+}
+const THIRD_CORE_DID: &str = "did:example:9999";
+const THIRD_IOTA_DID: &str = "did:iota:0xcccccccccccccccccccccccccccccccccccccccccccccccccccccccccccccccc";
+
 /// (core document as a JSON tree with the endpoint of service `frag` blanked and the services sorted by id — no order
 /// of services is promised —, metadata of an IotaDocument).
 fn masked(json: &str, did: &str, frag: &str) -> (serde_json::Value, serde_json::Value) {
@@ -1371,10 +1392,72 @@ impl HModel {
           let cred = credential(did, Some(raw_status(&id, Some(&((1u64 << 32) + i as u64).to_string()))));
           self.judge_open(s, &cred, what, &[false], case);
         }
-        // the status id names the OTHER document's service while the credential is issued by this document: recorded
-        let st: Status = RevocationBitmapStatus::new(svc_url(other.did_str(), SVC[k]), i).into();
-        if let Ok(r) = guard(|| s.doc.check_status_with(&other, false, &credential(did, Some(st)), StatusCheck::Strict)) {
-          self.col.outcome(&format!("status:unjudged:status-id-under-another-did:{}", res_label(&r)));
+        // the status id names the OTHER document's service (same fragment, another DID) while the credential is issued
+        // by this document, which holds no such service: the status cannot be established, so the check must not pass
+        // (in particular it must not be answered from this document's own service with that fragment)
+        let rbs_other = RevocationBitmapStatus::new(svc_url(other.did_str(), SVC[k]), i);
+        let cred_other = credential(did, Some(rbs_other.clone().into()));
+        self.col.eval1();
+        match guard(|| s.doc.check_status_with(&other, false, &cred_other, StatusCheck::Strict)) {
+          Err(p) => self.col.violation(&format!("check_status|{}", p.key()), &p.msg, case),
+          Ok(r) => {
+            if r.is_ok() {
+              self.col.violation("check_status|status-id-names-a-service-the-issuer-document-does-not-hold|accepted", &format!("{} service {} index {i} after {:?}", s.doc.kind(), SVC[k], s.hist), case);
+            }
+            self.col.outcome(&format!("status:status-id-under-another-did:{}", res_label(&r)));
+          }
+        }
+        self.col.eval1();
+        match guard(|| s.doc.check_bitmap_status(rbs_other)) {
+          Err(p) => self.col.violation(&format!("check_revocation_bitmap_status|{}", p.key()), &p.msg, case),
+          Ok(r) => {
+            if r.is_ok() {
+              self.col.violation("check_revocation_bitmap_status|status-id-names-a-service-the-issuer-document-does-not-hold|accepted", &format!("{} service {} index {i} after {:?}", s.doc.kind(), SVC[k], s.hist), case);
+            }
+            self.col.outcome(&format!("status:direct:status-id-under-another-did:{}", res_label(&r)));
+          }
+        }
+      }
+      // the issuer document ALSO holds `other-did#<same fragment>` with the complement set, before / after its own
+      // services: a status entry naming either service is answered by exactly that service
+      let comp: Vec<u32> = probes_of(self.uni).into_iter().filter(|i| !s.model[k].contains(i)).collect();
+      let third = if self.kind == 0 { THIRD_CORE_DID } else { THIRD_IOTA_DID };
+      for first in [true, false] {
+        let Some(doc2) = with_same_fragment_service(&s.doc, &s.fp, other.did_str(), SVC[k], &comp, first) else {
+          self.col.outcome(&format!("two-same-fragment-services:{}:document-kind-refuses-a-service-under-another-did", s.doc.kind()));
+          continue;
+        };
+        self.col.outcome(&format!("two-same-fragment-services:{}:built", s.doc.kind()));
+        for i in probes_of(self.uni) {
+          let in_own = s.model[k].contains(&i);
+          for (which, sdid, member) in [("own-did", did, in_own), ("other-did", other.did_str(), !in_own)] {
+            let rbs = RevocationBitmapStatus::new(svc_url(sdid, SVC[k]), i);
+            let cred = credential(did, Some(rbs.clone().into()));
+            let what = format!("service {sdid}#{} index {i}, the other-did service {} the own one", SVC[k], if first { "before" } else { "after" });
+            self.col.eval1();
+            let r = guard(|| doc2.check_status(&cred, StatusCheck::Strict));
+            let got = self.judge_canonical(s, "check_status|two-same-fragment-services", &what, r, member, case);
+            self.col.outcome(&format!("status:two-same-fragment-services:{which}:{got}"));
+            self.col.eval1();
+            let r = guard(|| doc2.check_bitmap_status(rbs));
+            let got = self.judge_canonical(s, "check_revocation_bitmap_status|two-same-fragment-services", &what, r, member, case);
+            self.col.outcome(&format!("status:direct:two-same-fragment-services:{which}:{got}"));
+          }
+          // a third DID with the same fragment: no such service in the document
+          let rbs = RevocationBitmapStatus::new(svc_url(third, SVC[k]), i);
+          let cred = credential(did, Some(rbs.clone().into()));
+          for (entry, r) in [("check_status", guard(|| doc2.check_status(&cred, StatusCheck::Strict))), ("check_revocation_bitmap_status", guard(|| doc2.check_bitmap_status(rbs.clone())))] {
+            self.col.eval1();
+            match r {
+              Err(p) => self.col.violation(&format!("{entry}|{}", p.key()), &p.msg, case),
+              Ok(r) => {
+                if r.is_ok() {
+                  self.col.violation(&format!("{entry}|status-id-names-a-service-the-issuer-document-does-not-hold|accepted"), &format!("{} third DID, service {} index {i} after {:?}", s.doc.kind(), SVC[k], s.hist), case);
+                }
+                self.col.outcome(&format!("status:two-same-fragment-services:third-did:{}", res_label(&r)));
+              }
+            }
+          }
         }
       }
     }
@@ -1622,7 +1705,7 @@ fn run_sets(ctx: &Ctx, name: &str, cases: Vec<Case>) {
 }
 
 fn generate(ctx: &Ctx) {
-  ctx.rule("(a) complete families of u32 sets (all 4096 subsets of a 12-index universe; prefix sets; strided, multiplicative-hash, run-union and dense-with-holes sets over full parameter products), each built two ways through revoke/unrevoke, encoded by the library and decoded back (directly, through the service's JSON, through a document), revoked through a document in one batch and half un-revoked in one batch, + harness-built legacy twin; (d) for every such set the endpoints another implementation would write: run-container streams (3 container-choice policies; decode, re-encode, update through a document: judged) and zlib levels 0/1/9 (recorded; only a wrong decoded set is judged); (b),(c) stateright BFS to closure over revoke/unrevoke batch histories on real documents from three start states (fresh, legacy, run-container stream + dense 4097-member set), batches are ordered index sequences with duplicates; membership of both services and check_status of every probe index judged after every step, status-entry variants, two offered issuer documents, check_revocation_bitmap_status and string service queries once per distinct real document state. distinct_nontrivial = distinct set cases (every one runs the whole encode/decode path) + unique document states of (b)");
+  ctx.rule("(a) complete families of u32 sets (all 4096 subsets of a 12-index universe; prefix sets; strided, multiplicative-hash, run-union and dense-with-holes sets over full parameter products), each built two ways through revoke/unrevoke, encoded by the library and decoded back (directly, through the service's JSON, through a document), revoked through a document in one batch and half un-revoked in one batch, + harness-built legacy twin; (d) for every such set the endpoints another implementation would write: run-container streams (3 container-choice policies; decode, re-encode, update through a document: judged) and zlib levels 0/1/9 (recorded; only a wrong decoded set is judged); (b),(c) stateright BFS to closure over revoke/unrevoke batch histories on real documents from three start states (fresh, legacy, run-container stream + dense 4097-member set), batches are ordered index sequences with duplicates; membership of both services and check_status of every probe index judged after every step, status-entry variants, two offered issuer documents, two same-fragment services under different DIDs in one issuer document, check_revocation_bitmap_status and string service queries once per distinct real document state. distinct_nontrivial = distinct set cases (every one runs the whole encode/decode path) + unique document states of (b)");
   ctx.assume("roaring (portable serialisation, also as the reader that cross-checks the harness-written run-container streams) and flate2 (zlib) are trusted lossless codecs; the harness builds legacy endpoints with them and its own base64 encoder");
   ctx.assume("legacy form = the single text form Base64Url-nopad(zlib(roaring)) base64-encoded once more with the standard alphabet and padding, as the versions before the fix of issue #1291 wrote it through their data-url layer (empty bitmap: ZUp5ek1tQUFBd0FES0FCcg==); the unpadded variant and the variant with a standard-alphabet inner layer are recorded, not judged");
   ctx.assume("a run-container stream (roaring format specification, cookie 12347) compressed with zlib at the default level is a conformant RevocationBitmap2022 endpoint that must decode; conformant endpoints compressed at other zlib levels are recorded only (the library tells legacy from current endpoints by the text prefix that the default level produces)");
